@@ -165,6 +165,10 @@ class Model:
         self.precalc = precalc   # calculate_xpath() on every attached root after each replayed prefix operation
         self.inner = LF if universe == "falsy" else LI
 
+    def case_extras(self):
+        """What a replay needs besides the history (used for violations raised by the explorer itself)."""
+        return {"mode": self.mode, "universe": self.universe, **({"precalc": True} if self.precalc else {})}
+
     # ---- world --------------------------------------------------------------------------------------
     def fresh(self):
         N._nodes.clear()
